@@ -50,6 +50,8 @@ func init() {
 		"HeldLocks":   rtHeldLocks,
 		"LockLog":     func(fr *frame, a []value) value { return len(fr.p.lockLog) },
 		"Catch":       rtCatch,
+		"CtxTimeout":  rtCtxTimeout,
+		"CtxCancelled": func(fr *frame, a []value) value { return ctxOf(a[0]).isCancelled() },
 		"Concretize":  rtConcretize,
 	}
 }
@@ -136,6 +138,17 @@ func rtCatch(fr *frame, a []value) (res value) {
 	}()
 	call(fr.p, fr, 0, a[0], nil)
 	return false
+}
+
+// CtxTimeout(ctx) returns the duration given to the innermost
+// context.WithTimeout in ctx's chain, or (0,false).
+func rtCtxTimeout(fr *frame, a []value) value {
+	for c := ctxOf(a[0]); c != nil; c = c.parent {
+		if c.timeout != nil {
+			return tuple{c.timeout, true}
+		}
+	}
+	return tuple{int64(0), false}
 }
 
 // Concretize(x, lo, hi): case-split a symbolic int into a concrete one.
